@@ -114,6 +114,7 @@ var verifC19 struct {
 	slots         []*verifC19Slot
 	txs           []*verifC19Tx // by id
 	openEnded     bool          // the request has no end slot: GetBlock is asked beyond the window
+	openLimit     int           // open-ended request: the last slot visited is start+openLimit (set by the harness that uses it)
 	getBlockCalls int
 }
 
@@ -122,6 +123,7 @@ func verifC19Reset(start uint64) {
 	verifC19.slots = nil
 	verifC19.txs = nil
 	verifC19.openEnded = false
+	verifC19.openLimit = 0
 	verifC19.getBlockCalls = 0
 }
 
@@ -165,7 +167,7 @@ func (multi *MultiEpoch) GetBlock(ctx context.Context, params *old_faithful_grpc
 	verifAssert(params.Slot == verifC19.start+uint64(k), "C19: blocks are not requested slot by slot in ascending order from the start of the range")
 	if k >= len(verifC19.slots) {
 		verifAssert(verifC19.openEnded, "C19: a block beyond the end of the range is requested")
-		verifAssert(uint64(k) <= maxSlotsToStream, "C19: more than maxSlotsToStream slots beyond the start are requested")
+		verifAssert(k <= verifC19.openLimit, "C19: more slots beyond the start are requested than an open-ended request covers")
 		return nil, status.Errorf(codes.NotFound, "Epoch is not available")
 	}
 	s := verifC19.slots[k]
@@ -319,9 +321,11 @@ func (s *verifC19BlockStream) Send(b *old_faithful_grpc.BlockResponse) error {
 
 type verifC19TxStream struct {
 	grpc.ServerStream
-	ctx    context.Context
-	sent   []*old_faithful_grpc.TransactionResponse
-	failAt int
+	ctx         context.Context
+	sent        []*old_faithful_grpc.TransactionResponse
+	failAt      int
+	cancelAfter int                // the client cancels the stream right after this many messages were sent (0: never)
+	cancel      context.CancelFunc // cancels ctx
 }
 
 func (s *verifC19TxStream) Context() context.Context { return s.ctx }
@@ -331,5 +335,8 @@ func (s *verifC19TxStream) Send(r *old_faithful_grpc.TransactionResponse) error 
 		return verifC19SendErr
 	}
 	s.sent = append(s.sent, r)
+	if s.cancelAfter > 0 && len(s.sent) == s.cancelAfter && s.cancel != nil {
+		s.cancel()
+	}
 	return nil
 }
